@@ -165,17 +165,17 @@ func runFile(s *section, file []byte, env map[string]string) (res result) {
 	if len(res.panics) > 0 || res.loadErr != nil {
 		return
 	}
-	if env != nil {
-		for k, v := range env {
-			os.Setenv(k, v)
-		}
-		guard("Manager.ApplyEnvVars", &res.panics, func() { res.loadErr = m.ApplyEnvVars() })
-		for k := range env {
-			os.Unsetenv(k)
-		}
-		if len(res.panics) > 0 || res.loadErr != nil {
-			return
-		}
+	// the daemon loads with Manager.LoadJSONFileAndEnv: the environment pass
+	// always follows the file, with or without variables set
+	for k, v := range env {
+		os.Setenv(k, v)
+	}
+	guard("Manager.ApplyEnvVars", &res.panics, func() { res.loadErr = m.ApplyEnvVars() })
+	for k := range env {
+		os.Unsetenv(k)
+	}
+	if len(res.panics) > 0 || res.loadErr != nil {
+		return
 	}
 	observe(m, &res)
 	if res.saved != nil && s != nil {
